@@ -246,4 +246,18 @@ theorem static_no_write_counterexample : ¬ FullStatementStaticNoWrite := by
   revert h2
   decide
 
+/-- The STAKE family is a second way the full statement fails (of model and code): none of STAKE,
+    UNSTAKE, UNSTAKEALL is flagged `writes` or tests `readOnly`. In a read-only frame running at a
+    registered miner account, `STAKE 1` moves 1 RPG out of the balance into the stake and `UNSTAKE 1`
+    lowers the stake. Replayed on the implementation inside generated frame trees (known findings
+    `static-frame:stakefamily:*`). -/
+theorem static_no_write_counterexample_stake :
+    let env : Env := { origin := .base 10, rv := restore, isMiner := fun a => a == .base 23 }
+    let w : World := { bal := [(.base 23, 2 * oneRPG)], stake := [(.base 23, 400)] }
+    (obs (run env 1 true (.base 23) w [] [] (.stake 1 (.done .stop))).world).bal (.base 23) = oneRPG
+    ∧ (obs (run env 1 true (.base 23) w [] [] (.stake 1 (.done .stop))).world).stake (.base 23) = 401
+    ∧ (obs (run env 1 true (.base 23) w [] [] (.unstake 1 (.done .stop))).world).stake (.base 23) = 399
+    ∧ (obs (run env 1 true (.base 23) w [] [] (.unstakeall (.done .stop))).world).stake (.base 23) = 0 := by
+  decide
+
 end Rangers.Props.C12
